@@ -1783,6 +1783,11 @@ class ContentFile(File):
     classes = ContentFileClasses()
 
     def _calc_hash(self) -> str:
+        if not self.filesystem.exists(self.path):
+            # Like other Files, a missing file has a deterministic hash, distinct from the
+            # hash of any existing file.
+            return hash_struct([self.type_basename, self.path, "missing"])
+
         # Use filesystem.open() to avoid triggering a recursive hash update.
         with self.filesystem.open(self.path, mode="rb") as infile:
             content_hash = hash_stream(infile)
